@@ -368,6 +368,10 @@ def r4_export_load(ctx):
               "the exported feature list is not get_feature_funcs()/"
               "get_feature_names() of all features")
     saves = [c for c in calls_in(ex) if call_name(c) == "np.savetxt"]
+    if not saves:
+        raise Undecided("export_training_set: the files are written by a "
+                        "helper that is not placed at its call (the pairing "
+                        "of column index and file name is not understood)")
     ctx.check(len(saves) == 2, ex, "one file per feature plus the response",
               "unexpected number of savetxt calls")
     for c in saves:
@@ -398,6 +402,14 @@ def r4_export_load(ctx):
                 (f"[:, {ii}]" in norm(sv[0].args[1])
                  or f"[:, {ii}]" in Resolver(ex, keep={ii}).text(
                      sv[0].args[1]))
+    if not ok and not any(
+            isinstance(c, ast.Call) and call_name(c) == "np.savetxt"
+            and any(c in ast.walk(lp_) for lp_ in loops)
+            for c in calls_in(ex)):
+        raise Undecided("export_training_set: the columns are not written "
+                        "inside the loop over the feature functions (the "
+                        "pairing of column index and file name is not "
+                        "understood)")
     ctx.check(ok, ex, "column i is written to train_<name of feature i>.txt",
               "exported column index and feature name do not correspond")
     ok = any("train_response.txt" in norm(st) for st in walk_no_nested(
